@@ -1114,3 +1114,44 @@ Corollary subtracted_sample_is_system_force c s i k :
 Proof.
   intros Hk Hs. pose proof (sample_force_closed_form c s i k Hk) as H. cbn zeta in H. rewrite H, Hs, orb_true_r. lra.
 Qed.
+
+
+(* ---------------------------------------------------------------- script entry points bin / bincount *)
+
+Lemma bound1_in_grid (c : @abf_cfg R) k b : (0 <= b < zget (c_nx c) k)%Z -> bound1 c k b = b.
+Proof.
+  intros [H0 H1]. unfold bound1. cbv zeta.
+  assert (Hrem : Z.rem b (zget (c_nx c) k) = b) by (apply Z.rem_small; lia).
+  destruct (bget (c_periodic c) k); [rewrite Hrem|];
+    (destruct (b <? 0)%Z eqn:E1; [apply Z.ltb_lt in E1; lia|];
+     destruct (zget (c_nx c) k <=? b)%Z eqn:E2; [apply Z.leb_le in E2; lia|]; reflexivity).
+Qed.
+
+Lemma zget_map_seq (f : nat -> Z) (n k : nat) : (k < n)%nat -> zget (map f (seq 0 n)) k = f k.
+Proof.
+  intros Hk. unfold zget. rewrite nth_indep with (d' := f 0%nat) by (rewrite map_length, seq_length; exact Hk).
+  rewrite map_nth. rewrite seq_nth by exact Hk. reflexivity.
+Qed.
+
+Lemma bins_bound_in_grid (c : @abf_cfg R) x : index_ok c (bins Rops c x) = true -> bins_bound Rops c x = bins Rops c x.
+Proof.
+  intros H. unfold bins_bound, bins. apply map_ext_in. intros k Hk.
+  unfold index_ok in H. rewrite forallb_forall in H. specialize (H k Hk).
+  apply andb_true_iff in H. destruct H as [H0 H1]. apply Z.leb_le in H0. apply Z.ltb_lt in H1.
+  apply bound1_in_grid.
+  assert (Hz : zget (bins Rops c x) k
+               = value_to_bin Rops (vget Rops (c_lower c) k) (vget Rops (c_width c) k) (vget Rops x k)).
+  { unfold bins. apply in_seq in Hk. apply zget_map_seq. lia. }
+  rewrite <- Hz. lia.
+Qed.
+
+(* `cv bias a bincount [cv bias a bin]` (and local_sample_count 0) after any history, for values inside the grid:
+   the number of samples attributed to the bin of the current values *)
+Theorem script_count_current c h x :
+  wf_cfg c -> index_ok c (bins Rops c x) = true ->
+  abf_count_current Rops c (fst (abf_run Rops c h)) x
+  = cnt_of (bins Rops c x) (attributed Rops c (ABFModel.trace_of Rops c h)).
+Proof.
+  intros Hwf Hok. unfold abf_count_current. rewrite (bins_bound_in_grid c x Hok).
+  apply (abf_state_is_sample_sum c h (bins Rops c x) Hwf).
+Qed.
